@@ -169,6 +169,21 @@ func runC04(env *core.Env) {
 		pres = append(pres, core.Store{"D:.ergo": nil, ".ergo/lock": {}, "out.txt": []byte("result\n")})
 		preNames = append(preNames, "no-log-file-yet")
 	}
+	onlyFor := map[int]map[string]bool{} // pre-state index -> the commands run there (nil = all)
+	{
+		// far more finished tasks than any batching threshold one might think of: prune and compact only
+		l := newSynLog()
+		ep := core.IDFor(310000)
+		l.Create(SynItem{ID: ep, Epic: true, Title: "epic of finished work"})
+		for i := 0; i < 250; i++ {
+			id := core.IDFor(int64(310001 + i))
+			l.Create(SynItem{ID: id, Title: fmt.Sprintf("finished %d", i), In: ep})
+			l.State(id, []string{"done", "canceled"}[i%2])
+		}
+		pres = append(pres, f.SA.WithLog(append(append([]byte{}, f.SA.Log()...), l.Bytes()...)))
+		preNames = append(preNames, "S_A+epic-with-250-finished-tasks")
+		onlyFor[len(pres)-1] = map[string]bool{"prune": true, "compact": true}
+	}
 	cmds := c04Commands(f)
 	{
 		// a plan whose events take several buffered writes (> 4 KiB)
@@ -191,6 +206,9 @@ func runC04(env *core.Env) {
 	var jobs []job
 	for pi := range pres {
 		for _, c := range cmds {
+			if only := onlyFor[pi]; only != nil && !only[c.Name] {
+				continue
+			}
 			jobs = append(jobs, job{pi, c})
 		}
 	}
